@@ -44,6 +44,7 @@ type Contract struct {
 	InlineOnly bool     // never use this contract at call sites (function is inlined)
 	Assigns    []*Clause // locations this function may write: x[*], p.f, p.*, result[*] ...
 	HasAssigns bool
+	IntMode    bool // verified with mathematical integers + no-overflow obligations
 	Reveal     map[string]bool // opaque spec functions whose definitions are visible in this contract's obligations
 	NoPanic    bool // callers may assume the function does not panic under its preconditions (always true once verified)
 	File       string
@@ -77,6 +78,8 @@ type Lemma struct {
 	Ensures  []*Clause
 	Steps    []LemmaStep
 	Reveal   map[string]bool
+	IntMode  bool
+	Splits   []string // "x" (all values of an 8-bit variable) or "exp f" (biased exponent classes of a float32 variable)
 	File     string
 	Line     int
 }
@@ -261,6 +264,20 @@ func (e *Env) loadContractFile(path string) error {
 				}
 			case "kinds":
 				cur.Kinds = append(cur.Kinds, strings.Fields(strings.ReplaceAll(rest, ",", " "))...)
+				last = nil
+			case "mode":
+				on := strings.TrimSpace(rest) == "int"
+				if cur != nil {
+					cur.IntMode = on
+				} else {
+					lem.IntMode = on
+				}
+				last = nil
+			case "split":
+				if lem == nil {
+					return fmt.Errorf("%s:%d: split only in lemma blocks", rel, lineNo)
+				}
+				lem.Splits = append(lem.Splits, rest)
 				last = nil
 			case "let":
 				if lem == nil {
